@@ -42,6 +42,8 @@ class C03(ParamsProp):
             G.add_refs(r, layers, r.range(1, 6), p_cyclic=4, p_dangling=6, p_embedded=10)
             c = {"op": "params", "layers": layers}
             yield c
+            if i % 4 == 0:
+                yield {"op": "params", "layers": G.clone_point_diamond(Rng(seed, "C03d", i))}
             if len(layers) == 1 and i % 2 == 0:
                 # permuted twin
                 perm = r.shuffle(layers[0]["m"])
